@@ -450,6 +450,9 @@ func (dir *genqlientDirective) mergeOperationDirective(
 	fillDefaultString(&dir.Alias, forField.Alias, operationDirective.Alias)
 }
 
+// lineTerminators rewrites the line terminators of the GraphQL spec to "\n".
+var lineTerminators = strings.NewReplacer("\r\n", "\n", "\r", "\n")
+
 // parsePrecedingComment looks at the comment right before this node, and
 // returns the genqlient directive applied to it (or an empty one if there is
 // none), the remaining human-readable comment (or "" if there is none), and an
@@ -475,7 +478,10 @@ func (g *generator) parsePrecedingComment(
 	// parse anything.  (But we do need to merge below.)
 	var commentLines []string
 	if pos != nil && pos.Src != nil {
-		sourceLines := strings.Split(pos.Src.Input, "\n")
+		// pos.Line comes from the lexer, which (like the GraphQL spec) ends a
+		// line at "\n", "\r\n" and a bare "\r"; split the same way, so that
+		// the line numbers index the right lines (and stay in range).
+		sourceLines := strings.Split(lineTerminators.Replace(pos.Src.Input), "\n")
 		for i := pos.Line - 1; i > 0; i-- {
 			line := strings.TrimSpace(sourceLines[i-1])
 			trimmed := strings.TrimSpace(strings.TrimPrefix(line, "#"))
